@@ -81,7 +81,7 @@ def c1_runs(tier):
         add("trees2-weighted", O.tree_consts(2, W, W, {1, 2}, {1, 2}), ALL5, True)
         add("trees3-weighted", O.tree_consts(3, W, W, {1, 2}, {1}, checkdefs=True), ["sorted", "rotated-nodelist", "attr-weight"], True)
         add("trees4-unit", O.tree_consts(4, {1}, {1}, {1, 2}, {1}, checkdefs=True), ["sorted", "rotated-insertion", "rotated-nodelist", "direct"], False)
-        add("shape4.0-weighted", O.tree_consts(4, W, W, {2}, {1}, shape=O.shape_of_edges(4, s4[0])), ["sorted"], True)
+        add("shape4.0-weighted", O.tree_consts(4, W, W, {2}, {1}, shape=O.shape_of_edges(4, s4[0])), ["sorted", "primed-object"], True)
         add("shape4.1-edgeweighted", O.tree_consts(4, W, {1}, {2}, {1}, shape=O.shape_of_edges(4, s4[1])), ["sorted"], True)
         for i, edges in enumerate(tree_shapes(5)):
             add("shape5.%d-unit" % i, O.tree_consts(5, {1}, {1}, {2}, {1}, shape=O.shape_of_edges(5, edges)), ["sorted", "rotated-nodelist"], False)
@@ -92,7 +92,7 @@ def c1_runs(tier):
     add("trees3-weighted", O.tree_consts(3, W, W, {1, 2}, {1, 2}, checkdefs=True), ORD3 + ["attr-weight"], True)
     add("trees4-unit", O.tree_consts(4, {1}, {1}, {1, 2}, {1, 2}, checkdefs=True), ALL5, False)
     for i, edges in enumerate(s4):
-        add("shape4.%d-weighted" % i, O.tree_consts(4, W, W, {1, 2}, {1, 2}, shape=O.shape_of_edges(4, edges)), ["sorted"], True)
+        add("shape4.%d-weighted" % i, O.tree_consts(4, W, W, {1, 2}, {1, 2}, shape=O.shape_of_edges(4, edges)), ["sorted", "primed-object"], True)
     for i, edges in enumerate(tree_shapes(5)):
         add("shape5.%d-unit" % i, O.tree_consts(5, {1}, {1}, {1, 2}, {1, 2}, shape=O.shape_of_edges(5, edges)),
             ["sorted", "rotated-nodelist"], False)
